@@ -31,8 +31,10 @@ EXHAUSTIVE_NOTE = ("param variant: every schedule of N assignments (coroutine / 
                    "assignments; thorough tier: all N<=3; quick tier: all N<=2 and N=3 except the kind tuples with two 2-yield "
                    "generators or (without any plain/synchronous assignment) two 1-yield generators")
 
-KINDS = ["coro", "agen1", "agen2", "plain", "sref"]       # sref = a synchronous reference (a Parameter of another object)
-NFUT = {"coro": 1, "agen1": 1, "agen2": 2, "plain": 0, "sref": 0}
+KINDS = ["coro", "agen1", "agen2", "plain", "sref", "bad"]
+# sref = a synchronous reference (a Parameter of another object); bad = an assignment that is rejected (wrong type) and
+# therefore must change nothing: whatever was pending stays pending and still wins
+NFUT = {"coro": 1, "agen1": 1, "agen2": 2, "plain": 0, "sref": 0, "bad": 0}
 
 
 def _schedules(kinds):
@@ -62,7 +64,9 @@ def enumerate_cases(tier):
     maxn = 3
     for n in range(1, maxn + 1):
         for kinds in itertools.product(KINDS, repeat=n):
-            if all(k in ("plain", "sref") for k in kinds):
+            if all(k in ("plain", "sref", "bad") for k in kinds):
+                continue
+            if kinds.count("bad") > 1 or (tier == "quick" and n == 3 and "bad" in kinds and ("agen2" in kinds or "agen1" in kinds)):
                 continue
             if tier == "quick" and n == 3 and kinds.count("sref") + kinds.count("plain") == 0 and kinds.count("agen1") >= 2:
                 continue
@@ -135,7 +139,7 @@ def _owner(v):
 
 async def _run_param(case, res):
     kinds = case["kinds"]
-    P = type("P", (param.Parameterized,), {"x": param.Parameter(default="init", allow_refs=True)})
+    P = type("P", (param.Parameterized,), {"x": param.String(default="init", allow_refs=True)})
     p = P()
     S = type("S", (param.Parameterized,), {"v": param.Parameter(default="s?")})
     seen = []
@@ -152,6 +156,8 @@ async def _run_param(case, res):
             return f"p{i}"
         if k == "sref":
             return S(v=f"s{i}").param.v
+        if k == "bad":
+            return 5 if i % 2 else S(v=7).param.v        # not a string: a plain value or a reference resolving to one
         if k == "coro":
             async def coro():
                 return await futs[(i, 0)]
@@ -167,8 +173,18 @@ async def _run_param(case, res):
     for step in case["steps"]:
         if step[0] == "assign":
             i = step[1]
-            if kinds[i] in ("plain", "sref") and any(not f.done() for (a, _j), f in futs.items() if a < i):
+            if kinds[i] in ("plain", "sref", "bad") and any(not f.done() for (a, _j), f in futs.items() if a < i):
                 pending_when_plain = True
+            if kinds[i] == "bad":
+                try:
+                    p.x = make_ref(i)
+                except ValueError:
+                    pass
+                else:
+                    res.fail("C10.invalid_assignment_accepted", f"assignment {i} (a non-string) was accepted")
+                if case["drain_after_assign"]:
+                    await _drain()
+                continue
             p.x = make_ref(i)
             last_assigned = i
             if case["drain_after_assign"]:
@@ -184,7 +200,8 @@ async def _run_param(case, res):
                                                     f"{p.x!r} (steps {case['steps']!r}, kinds {kinds!r})")
             break
     await _drain(8)
-    want = _result(kinds, len(kinds) - 1)
+    accepted = [i for i, k in enumerate(kinds) if k != "bad"]
+    want = _result(kinds, accepted[-1]) if accepted else "init"
     if p.x != want and not res.violations:
         res.fail("C10.latest_assignment_lost", f"kinds {kinds!r}, steps {case['steps']!r}, drain_after_assign="
                                                f"{case['drain_after_assign']}: final value {p.x!r}, the most recent assignment gives {want!r}; "
